@@ -758,16 +758,18 @@ func bitAccessor(field interface{}) (func(uint) bool, bool) {
 	case int32:
 		v := uint64(int64(f))
 		return func(pos uint) bool {
+			// numbers are sign extended
 			if pos >= 64 {
-				return false
+				return f < 0
 			}
 			return v&(1<<pos) != 0
 		}, true
 	case int64:
 		v := uint64(f)
 		return func(pos uint) bool {
+			// numbers are sign extended
 			if pos >= 64 {
-				return false
+				return f < 0
 			}
 			return v&(1<<pos) != 0
 		}, true
@@ -783,8 +785,9 @@ func bitAccessor(field interface{}) (func(uint) bool, bool) {
 		}
 		v := uint64(int64(f))
 		return func(pos uint) bool {
+			// numbers are sign extended
 			if pos >= 64 {
-				return false
+				return f < 0
 			}
 			return v&(1<<pos) != 0
 		}, true
